@@ -136,11 +136,11 @@ func (f *ruleFactory) CreateRule(version, srcID string, ruleConfig config2.Rule)
 				CausedBy(err)
 		}
 
+		// the request host has to satisfy any one of the configured host expressions
 		rul.routes = append(rul.routes,
 			&routeImpl{
 				rule:    rul,
 				path:    rc.Path,
-				// the request host has to satisfy any one of the configured host expressions
 				matcher: compositeMatcher{sm, mm, anyOfMatcher(hm), ppm},
 			})
 	}
